@@ -1414,7 +1414,7 @@ func (e *c12Env) modelOracle(out *c12Outcome) error {
 // selectorOracle: what locking selections returned.
 func (e *c12Env) selectorOracle(out *c12Outcome, modelOK, race bool) error {
 	nm, reqs, runs, s, h, playReq := e.nm, e.reqs, e.runs, e.s, e.h, e.playReq
-	A, admitted := e.A, e.admitted
+	A := e.A
 	played := playReq >= 0 && runs[playReq].err == nil
 	var blockTxs []*pb.Transaction
 	univ := map[string]*hx.UTXO{}
@@ -1432,9 +1432,10 @@ func (e *c12Env) selectorOracle(out *c12Outcome, modelOK, race bool) error {
 		for _, ti := range t.TxInputs {
 			spent[hx.UKey(string(ti.FromAddr), ti.RefTxid, ti.RefOffset)] = true
 		}
-		if !admitted[string(t.Txid)] {
-			continue
-		}
+	}
+	// every output of a pending or admitted transaction can be unspent at some point of some serial
+	// order (an output spent by a pending transaction comes back when a play evicts the spender)
+	for _, t := range append(append([]*pb.Transaction{}, e.oldPool...), A...) {
 		for off, to := range t.TxOutputs {
 			amt := new(big.Int).SetBytes(to.Amount)
 			if string(to.ToAddr) == hx.FeeAddr || amt.Sign() == 0 {
@@ -1529,9 +1530,9 @@ func c12KeyList(ks map[string]bool) []string {
 	var out []string
 	for k, x := range ks {
 		if x {
-			out = append(out, k+":X")
+			out = append(out, fmt.Sprintf("%q:X", k))
 		} else {
-			out = append(out, k+":S")
+			out = append(out, fmt.Sprintf("%q:S", k))
 		}
 	}
 	sort.Strings(out)
@@ -2048,6 +2049,34 @@ func init() {
 			return err
 		}
 		return runC12State(tr, fs)
+	}
+	// a Part C failure has no recorded schedule: repeat the scenario with real goroutines
+	replayers["C12/race-goroutines"] = func(raw json.RawMessage, fs *hx.FindingSet) error {
+		tr, err := c12DecodeStateTrace(raw)
+		if err != nil {
+			return err
+		}
+		for rep := 0; rep < 25; rep++ {
+			nm, err := hx.NewNodeMachine(hx.DefaultOpts(), fs)
+			if err != nil {
+				return err
+			}
+			for i, op := range tr.Prefix {
+				if err := c12ApplyPrefix(nm, op); err != nil {
+					nm.Close()
+					return fmt.Errorf("prefix step %d: %v", i, err)
+				}
+			}
+			out := c12RaceRun(nm, tr.Prefix, tr.Reqs, fs)
+			nm.Close()
+			if out.Wedged {
+				return fmt.Errorf("requests did not finish within 90 s (inconclusive)")
+			}
+			if out.Err != nil {
+				return fmt.Errorf("repetition %d: %v", rep, out.Err)
+			}
+		}
+		return nil
 	}
 	// the witness of the release/delete window carries both traces
 	replayers["C12/witness-"+c12FindingWindow] = func(raw json.RawMessage, fs *hx.FindingSet) error {
